@@ -368,6 +368,9 @@ func runCheck(o CheckOpts) (code int) {
 		ok := res.Status == "unsat"
 		if ok {
 			ev.Discharged++
+			if res.Single {
+				ev.SingleBackend = append(ev.SingleBackend, ob.Name+" ("+res.Solver+")")
+			}
 			continue
 		}
 		// known finding?
@@ -491,6 +494,7 @@ func runCheck(o CheckOpts) (code int) {
 
 type Evidence struct {
 	opts             CheckOpts
+	SingleBackend    []string
 	BoundedRuns      []string
 	Functions        []string
 	Obligations      int
@@ -556,6 +560,7 @@ func (ev *Evidence) write(path string) error {
 		"covers_not_refuted":      ev.CoversUnknown,
 		"untagged_obligations_not_counted": ev.OtherObligations,
 		"known_findings":          ev.KnownFindings,
+		"discharged_by_one_solver_binary_only": ev.SingleBackend,
 		"not_decided":             extra.NotDecided,
 		"bounded":                 append(append([]string{}, extra.Bounded...), ev.BoundedRuns...),
 		"notes":                   ev.Notes,
